@@ -39,9 +39,23 @@ class Hooks:
         if kind == "mut":
             k = self.n_mut
             self.n_mut += 1
-            self.mut_log.append((k, name, _short(args)))
+            self.mut_log.append((k, name, _short(args), _phase()))
             if k in self.faults:
                 raise OSError(5, "injected fault at mutating call %d (%s)" % (k, name))
+
+
+def _phase():
+    """Which part of a build makes the call: "rollback" (inside FileBuilder._roll_back, i.e. while
+    undoing a build that has already failed), "commit" (inside _commit / clean) or "forward"."""
+    f = sys._getframe(1)
+    while f is not None:
+        n = f.f_code.co_name
+        if n == "_roll_back":
+            return "rollback"
+        if n in ("_commit", "clean"):
+            return "commit"
+        f = f.f_back
+    return "forward"
 
 
 def _short(args):
@@ -122,7 +136,7 @@ class GzipProxy:
             f = real_gzip.open(filename, mode, *a, **k)
             k1 = h.n_mut
             h.n_mut += 1
-            h.mut_log.append((k1, "gzip.write", _short((filename,))))
+            h.mut_log.append((k1, "gzip.write", _short((filename,)), _phase()))
             if k1 in h.faults:
                 return FailingWriter(f)
             return f
